@@ -248,7 +248,7 @@ func c09exec(j run.Job, a *run.Acc) {
 						return nil, 0
 					}
 					if shorter { // value may be shorter than what was read (e.g. unquoting)
-						return b[:k-1 : k-1], k
+						return b[: k-1 : k-1], k
 					}
 					return b[:k], k
 				})
